@@ -115,6 +115,7 @@ type hookSummary struct {
 	ChanCloses     int            `json:"chan_closes"`    // ... by dagChannel.reportValues (skipped channel)
 	SkipCloses     int            `json:"skip_closes"`    // ... by dagChannel.reportSkip (channel becomes skipped)
 	Merges         []int          `json:"merges"`         // sizes of the mergeValues calls of channel.get, sorted
+	CPDrains       int            `json:"cp_drains"`      // streams concatenated (drained and closed) by checkPointer.convertCheckPoint
 	OtherMerges    map[string]int `json:"other_merges,omitempty"`
 	CallbackCopies []int          `json:"callback_copies,omitempty"`
 	OtherCopies    map[string]int `json:"other_copies,omitempty"`
@@ -163,6 +164,9 @@ func summarise(ev []schema.VerifC19Event) hookSummary {
 			case strings.HasPrefix(e.Origin, "compose.streamReaderPacker.close<compose.(*dagChannel).reportSkip"):
 				s.SkipCloses++
 			default:
+				if strings.Contains(e.Origin, "<compose.convert<compose.(*streamConverter).convert") {
+					s.CPDrains++
+				}
 				s.OtherCloses[shortOrigin(e.Origin)]++
 			}
 		case "merge":
@@ -260,6 +264,7 @@ func (engine) Run(ci any) lib.Result {
 	// verdict instead of changing it); settleHard bounds the wait.
 	var blocked, leaked []string
 	var sum hookSummary
+	var lastEv []schema.VerifC19Event
 	t0 := time.Now()
 	lastSig, quietSince, settled := "", time.Now(), false
 	for {
@@ -289,6 +294,7 @@ func (engine) Run(ci any) lib.Result {
 			}
 		}
 		ev := schema.VerifC19Snapshot()
+		lastEv = ev
 		sum = summarise(ev)
 		fmt.Fprintf(&sig, "ev=%d", len(ev))
 		if len(blocked) == 0 && len(leaked) == 0 && len(sum.Undrained) == 0 {
@@ -389,10 +395,14 @@ func (engine) Run(ci any) lib.Result {
 	res.Oracle = strings.Join(fails, "; ")
 
 	// ---- model case
-	if e.resumes == 0 { // the run model does not cover interrupt + resume: oracle only
+	if e.resumes == 0 {
 		if term, ok := coqCase(c, e, &sum); ok {
 			res.CoqTerm = term
 		}
+	} else if term, ok := coqInterruptCase(c, e, lastEv); ok {
+		// interrupt + resume: the model follows the run up to the first interrupt exit (the resumed
+		// segments are covered by the oracle only)
+		res.CoqTerm = term
 	}
 	res.Nontrivial = len(e.producers) > 0 && (len(sum.Copies) > 0 || len(sum.CallbackCopies) > 0 || sum.Streams > len(e.producers))
 	return res
@@ -483,20 +493,8 @@ func unfinished(c *Case, e *env) string {
 		return ""
 	}
 	check := func(from int, brs []BranchSpec, k int) string {
-		// a control edge to a node that is also an end node of a branch of the same node does not
-		// count: if no branch selects it the skip report comes first and may skip the node for good
-		isEnd := map[int]bool{}
-		for _, b := range brs {
-			for _, t := range b.Ends {
-				isEnd[t] = true
-			}
-		}
-		var trig []int
-		for _, y := range controls[from] {
-			if !isEnd[y] {
-				trig = append(trig, y)
-			}
-		}
+		// a control edge triggers its target whatever the branches of the node select (665541a)
+		trig := append([]int(nil), controls[from]...)
 		for bi := range brs {
 			if log := e.brLog[[2]int{from, bi}]; k < len(log) {
 				trig = append(trig, log[k]...)
@@ -686,6 +684,44 @@ func streamSides(n *NodeSpec) int {
 		return 2
 	}
 	return 0
+}
+
+// coqInterruptCase renders the first segment of an interrupted run: graph, schedule up to the
+// pass whose calculateNextTasks was followed by the interrupt exit, and the accounting events
+// logged until the interrupt error was returned. Non-eager modes without nested graphs only.
+func coqInterruptCase(c *Case, e *env, ev []schema.VerifC19Event) (string, bool) {
+	if c.Mode == "workflow" || e.seg1 < 0 {
+		return "", false
+	}
+	for i := range c.Nodes {
+		if c.Nodes[i].Sub != nil {
+			return "", false
+		}
+	}
+	if e.seg1 > len(ev) {
+		return "", false
+	}
+	sum := summarise(ev[:e.seg1])
+	e.mu.Lock()
+	defer e.mu.Unlock()
+	writeTo, controls := c.callsOf()
+	seen := map[int]int{}
+	top, ok := coqSched(e, e.sched1, c.Nodes, c.StartBranches, START, func(i int) int { return i }, seen)
+	if !ok {
+		return "", false
+	}
+	cps := make([]string, len(sum.Copies))
+	for i, n := range sum.Copies {
+		cps[i] = lib.CoqZ(int64(n))
+	}
+	mgs := make([]string, len(sum.Merges))
+	for i, n := range sum.Merges {
+		mgs[i] = lib.CoqNat(n)
+	}
+	return lib.CoqApp("mkI", lib.CoqBool(c.Mode != "pregel"),
+		coqGraph(c.Nodes, c.StartBranches, writeTo, controls, false), top,
+		lib.CoqList(cps), lib.CoqNat(sum.ResolveCloses), lib.CoqNat(sum.UpdateCloses), lib.CoqNat(sum.ChanCloses), lib.CoqNat(sum.SkipCloses),
+		lib.CoqList(mgs), lib.CoqNat(sum.CPDrains)), true
 }
 
 func nodeIndex(key string) (int, bool) {
